@@ -54,7 +54,7 @@ func CheckGraph(s *Snap) string {
 			return "VIOL:hash " + Short(id)
 		}
 		for _, r := range o.Refs {
-			if _, ok := s.Objs[r]; !ok {
+			if !s.Exists(r) {
 				return fmt.Sprintf("VIOL:dangling %s->%s", Short(id), Short(r))
 			}
 			count[r]++
